@@ -34,6 +34,9 @@ def routing_configs(sizes=(5, 8)):
             dict(env="op", n=n),
             dict(env="pctsp", n=n),
             dict(env="spctsp", n=n),
+            dict(env="pctsp", n=n, prize_required=0.5),
+            dict(env="pctsp", n=n, prize_required=1.5),
+            dict(env="spctsp", n=n, prize_required=0.5),
             dict(env="pdp", n=n + (n % 2), start_depot=False),
             dict(env="pdp", n=n + (n % 2), start_depot=True),
             dict(env="mtsp", n=n, cost_type="minmax", agents=(2, 3)),
@@ -83,10 +86,11 @@ def make(cfg):
         if "max_length" in cfg:
             gp["max_length"] = cfg["max_length"]
         return E.OPEnv(generator_params=gp, **kw), R.OP
-    if name == "pctsp":
-        return E.PCTSPEnv(generator_params=dict(num_loc=n), **kw), R.PCTSP
-    if name == "spctsp":
-        return E.SPCTSPEnv(generator_params=dict(num_loc=n), **kw), R.PCTSP
+    if name in ("pctsp", "spctsp"):
+        gp = dict(num_loc=n)
+        if "prize_required" in cfg:  # non-default prize requirement (prizes are still drawn so that about n/4 total = 1)
+            gp["prize_required"] = cfg["prize_required"]
+        return (E.PCTSPEnv if name == "pctsp" else E.SPCTSPEnv)(generator_params=gp, **kw), R.PCTSP
     if name == "pdp":
         return E.PDPEnv(generator_params=dict(num_loc=n), force_start_at_depot=cfg.get("start_depot", False), **kw), R.PDP
     if name == "mtsp":
